@@ -154,6 +154,73 @@ fn check_style<C: dropshot::ServerContext>(style: Style<C>, vectors: &[Value], m
     }
 }
 
+/// The declared body limit is what the server *applies*: serve the API (header version policy), and send each
+/// PUT / POST declaration a body of exactly its effective limit (declared, else the server default) and one
+/// byte more.
+fn live_limits(name: &'static str, api: ApiDescription<()>, vectors: &[Value], mism: &mut Vec<Value>, comparisons: &mut u64) {
+    use dropshot::{ClientSpecifiesVersionInHeader, ConfigDropshot, ServerBuilder, VersionPolicy};
+    use verif_harness::httpc;
+    const DEFAULT: usize = 1024;
+    let rt = tokio::runtime::Builder::new_multi_thread().worker_threads(2).enable_all().build().unwrap();
+    let found: Vec<Value> = rt.block_on(async {
+        let mut found = vec![];
+        let policy = VersionPolicy::Dynamic(Box::new(ClientSpecifiesVersionInHeader::new(
+            "x-api-version".parse::<http::HeaderName>().unwrap(),
+            semver::Version::new(9, 0, 0),
+        )));
+        let log = slog::Logger::root(slog::Discard, slog::o!());
+        let server = match ServerBuilder::new(api, (), log)
+            .config(ConfigDropshot { bind_address: "127.0.0.1:0".parse().unwrap(), default_request_body_max_bytes: DEFAULT, ..Default::default() })
+            .version_policy(policy)
+            .start()
+        {
+            Ok(s) => s,
+            Err(e) => return vec![json!({"what": "server-failed-to-start", "style": name, "msg": e.to_string()})],
+        };
+        let addr = server.local_addr();
+        for v in vectors {
+            let d = &v["decl"];
+            let e = &v["expected"];
+            if jstr(&d["kind"]) != "endpoint" {
+                continue;
+            }
+            let method = jstr(&e["method"]);
+            if method != "PUT" && method != "POST" {
+                continue;
+            }
+            let Some(ver) = (1..=5u64).find(|x| in_range(&e["range"], *x)) else { continue };
+            let declared = e["maxbytes"].as_u64().unwrap_or(0) as usize;
+            let limit = if declared == 0 { DEFAULT } else { declared };
+            let form = jstr(&e["ctype"]) == "form";
+            for (len, want_ok) in [(limit, true), (limit + 1, false), (limit / 2, true)] {
+                let body: Vec<u8> = if form {
+                    let head = "x=1&p=";
+                    format!("{}{}", head, "a".repeat(len - head.len())).into_bytes()
+                } else {
+                    let head = "{\"x\":1";
+                    format!("{}{}}}", head, " ".repeat(len - head.len() - 1)).into_bytes()
+                };
+                let hdr = vec![
+                    ("x-api-version".to_string(), format!("{}.0.0", ver)),
+                    ("content-type".to_string(), if form { "application/x-www-form-urlencoded".to_string() } else { "application/json".to_string() }),
+                ];
+                let req = httpc::build_request(&method, &format!("/d{}", d["id"].as_u64().unwrap()), &hdr, Some(&body));
+                let resp = httpc::oneshot(addr, &req, false, std::time::Duration::from_secs(10)).await.unwrap_or_default();
+                let ok = (200..300).contains(&resp.status);
+                let refused = (400..500).contains(&resp.status);
+                if (want_ok && !ok) || (!want_ok && !refused) {
+                    found.push(json!({"what": "effective-body-limit", "style": name, "decl": d, "declared": declared,
+                        "body_bytes": len, "status": resp.status, "want": if want_ok { "accepted" } else { "refused with a 4xx" }}));
+                }
+            }
+        }
+        let _ = server.close().await;
+        found
+    });
+    *comparisons += 3 * vectors.len() as u64;
+    mism.extend(found);
+}
+
 fn main() {
     quiet_panics();
     let args: Vec<String> = std::env::args().collect();
@@ -193,6 +260,13 @@ fn main() {
             check_style(Style { name: "fn", docs: fn_docs, router_api: Some(fn_api) }, &vectors, &mut mism, &mut comparisons);
             check_style(Style { name: "trait", docs: tr_docs, router_api: Some(tr_api) }, &vectors, &mut mism, &mut comparisons);
             check_style(Style { name: "stub", docs: st_docs, router_api: Some(st_api) }, &vectors, &mut mism, &mut comparisons);
+            // the limits as applied by a live server (the stub has no handlers to serve with)
+            if let Ok(api) = build_fn() {
+                live_limits("fn", api, &vectors, &mut mism, &mut comparisons);
+            }
+            if let Ok(api) = gen_api_mod::api_description::<GenImpl>() {
+                live_limits("trait", api, &vectors, &mut mism, &mut comparisons);
+            }
         }
     }
     mism.truncate(100);
